@@ -117,8 +117,22 @@ def harness(tier, seed):
         # --- coordinate instances
         pts_int = [(rng.randint(0, 2000), rng.randint(0, 2000)) for _ in range(n)]
         pts_dec = [(round(rng.uniform(-80, 80), rng.choice([1, 2, 4])), round(rng.uniform(-170, 170), 2)) for _ in range(n)]
+        # far apart and nearly aligned integer points: the distance exceeds an integer by less than 1e-9 of its size, which a
+        # tolerant comparison would mistake for "exactly that integer"; the oracle for these is exact integer arithmetic
+        far = [(0, 0), (40000, 1), (90000, 2), (65536, 3), (10 ** 6, 1), (250000, 250001), (123456, 0), (99999, 4)]
+        rng.shuffle(far)
+        pts_far = far[:max(2, min(n, len(far)))]
+
+        def ceil_exact(a, b):
+            d2 = (a[0] - b[0]) ** 2 + (a[1] - b[1]) ** 2
+            return 0 if d2 == 0 else math.isqrt(d2 - 1) + 1
+
+        def euc_exact(a, b):
+            return (math.isqrt(4 * ((a[0] - b[0]) ** 2 + (a[1] - b[1]) ** 2)) + 1) // 2
         for ewt, fn, pts in (("EUC_2D", d_euc, pts_int), ("CEIL_2D", d_ceil, pts_int), ("ATT", d_att, pts_int),
+                             ("CEIL_2D", ceil_exact, pts_far), ("EUC_2D", euc_exact, pts_far),
                              ("EUC_2D", d_euc, pts_dec), ("GEO", d_geo, pts_dec), ("ATT", d_att, pts_dec)):
+            n = len(pts)
             if len(set(pts)) < n:
                 continue
             txt = ["NAME: pts", "TYPE: TSP", f"DIMENSION: {n}", f"EDGE_WEIGHT_TYPE: {ewt}", "NODE_COORD_SECTION"] + \
